@@ -81,7 +81,6 @@ func (c *Ctx) mapLiteralStrings(rel, name string) map[string]string {
 	return out
 }
 
-
 // constObjEquals: package-level constant name has the integer value w.
 func constObjEquals(p *packages.Package, name string, w int64) bool {
 	o := p.Types.Scope().Lookup(name)
